@@ -136,7 +136,20 @@ def intern_matrix(w, A, want_inverse):
         return inv, S.SymArr(A.axes[:-2], {(): K.fn("log", A.expr)}).fresh_copy()
     except BlockMatrix:
         if want_inverse:
-            raise S.ShimUnsupported("inverse of a block matrix")
+            # inverse of a block matrix: opaque block atoms WITHOUT relations (nothing can be proved about them; the
+            # caller's clauses on this inverse stay undischarged and must be listed as not covered)
+            n = len(w.__dict__.setdefault("opaque_block_inverses", []))
+            w.opaque_block_inverses.append(A)
+            batch = [c for a in A.axes[:-2] for c in a.comps]
+            blocks = {}
+            for key in A.keys():
+                sa = A.simple_axes(key)
+                idx = batch + list(sa[-2].comps) + list(sa[-1].comps)
+                blocks[key] = K.atom(f"InvB{n}_{key[0]}{key[1]}", *idx)
+            inv = S.SymArr(A.axes, blocks).fresh_copy()
+            ld = S.SymArr(A.axes[:-2], {(): K.atom(f"LDB{n}", *batch)}).fresh_copy()
+            w.assumptions.add("inverse / log-determinant of a block matrix returned by the invert_matrix contract as opaque atoms (no obligation about them is discharged)")
+            return inv, ld
         return None, _block_logdet(w, A)
     # batch-index abstraction: a matrix family indexed through index maps (slices, picks, scatter sources) is the
     # instantiation of the family indexed by plain batch variables; intern the family and instantiate its atoms
@@ -263,6 +276,28 @@ def intern_matrix(w, A, want_inverse):
         rec["batch"] = occurring
         rec["row"], rec["col"] = row, col
         rec["Xexpr"] = A.expr
+    if "batch_sym" not in rec:
+        # symmetry of the matrix family under exchanging two batch indices of the same sort (e.g. Lx + Lk[k] + Lk[l])
+        groups = []
+        for i_ in range(len(occurring)):
+            for j_ in range(i_ + 1, len(occurring)):
+                if str(occurring[i_].sort) != str(occurring[j_].sort):
+                    continue
+                m3 = dict(m)
+                m3[occurring[i_]], m3[occurring[j_]] = m[occurring[j_]], m[occurring[i_]]
+                f3, _ = K._poly_form(p, m3)
+                m4 = dict(m3)
+                m4[row], m4[col] = m3[col], m3[row]
+                f4, _ = K._poly_form(p, m4)
+                if key in (f3, f4):
+                    groups.append((i_, j_))
+        rec["batch_sym"] = groups
+        if groups:
+            nb_ = len(occurring)
+            ctx.sym[rec["inv"]] = list(ctx.sym.get(rec["inv"], [(nb_, nb_ + 1)])) + groups
+            ctx.sym[rec["ld"]] = groups
+            if (nb_, nb_ + 1) not in ctx.sym[rec["inv"]]:
+                ctx.sym[rec["inv"]].append((nb_, nb_ + 1))
     w.inv_log.append(dict(kind="interned", n=rec["n"], inverse=want_inverse))
     inv = None
     if want_inverse:
